@@ -33,7 +33,7 @@ def freshReg (c : Cfg) (db : DB) : Registry :=
 
 def initSt (hdr : List String) : St :=
   match hdr with
-  | ["M", _, kgc, start, stop, cache, runners] =>
+  | "M" :: _ :: kgc :: start :: stop :: cache :: runners :: _ =>   -- an 8th field (DKV memtable bytes) only concerns the real DKV
     let c : Cfg := ⟨natOr kgc, natOr start, natOr stop, natOr cache, natOr runners⟩
     { cfg := c, reg := freshReg c [], spec := Spec.new (runnerIds c.runners) }
   | _ => {}
@@ -48,12 +48,29 @@ def insertFired (x : Bytes × Int) : List (Bytes × Int) → List (Bytes × Int)
 
 def sortFired (l : List (Bytes × Int)) : List (Bytes × Int) := l.foldr insertFired []
 
+def nonDecreasing : List (Bytes × Int) → Bool
+  | a :: b :: rest => decide (a.2 ≤ b.2) && nonDecreasing (b :: rest)
+  | _ => true
+
+/-- fired timers in canonical order (ties by key); a raw order that decreases in the timestamp is shown as it is,
+marked `UNORDERED` (followed by the same canonical list; the harness prints the implementation's list the same way) -/
 def showFired (l : List (Bytes × Int)) : String :=
-  if l.isEmpty then "-" else joinWith "," ((sortFired l).map fun p => s!"{p.2}:{toHex p.1}")
+  if l.isEmpty then "-"
+  else (if nonDecreasing l then "" else "UNORDERED ") ++ joinWith "," ((sortFired l).map fun p => s!"{p.2}:{toHex p.1}")
+
+/-- the specification's fired set (a set: shown in canonical order) -/
+def showFiredSet (l : List (Bytes × Int)) : String := showFired (sortFired l)
 
 /-- model line, with the specification's line attached when they differ -/
-def withSpec (model spec : String) : String :=
-  if model == spec then model else s!"{model} #spec {spec} #kf spec-deviation"
+def withSpec (kf model spec : String) : String :=
+  if model == spec then model else s!"{model} #spec {spec} #kf {kf}"
+
+/-- the situation of finding D51 (and only that): a timer before 1970 is stored, or is still pending in the specification
+(the code orders timers by the bytes of `uint64(UnixNano)`, so it fires such a timer late). Any other deviation of the
+model from the specification keeps the unlisted label and is reported as a violation. -/
+def kfLabel (st : St) : String :=
+  if st.spec.pending.any (fun p => p.2 < 0) || st.reg.store.timerKeys.any (fun k => (timerOf k).2 < 0) then "D51"
+  else "spec-deviation"
 
 def specEarliest (sp : Spec) : String :=
   match sp.pending with
@@ -75,12 +92,12 @@ def step (st : St) : List String → St × String
     let r := st.reg.advance s!"sr{natOr i}" (intOr wm)
     let sp := st.spec.advance s!"sr{natOr i}" (intOr wm)
     ({ st with reg := r.1, spec := sp.1 },
-      withSpec s!"c={r.1.wm} f={showFired r.2}" s!"c={sp.1.wm} f={showFired sp.2}")
+      withSpec (kfLabel st) s!"c={r.1.wm} f={showFired r.2}" s!"c={sp.1.wm} f={showFiredSet sp.2}")
   | ["earliest"] =>
     match st.reg.store.earliest with
-    | none => (st, withSpec "none" (specEarliest st.spec))
-    | some k => (st, withSpec s!"t={(timerOf k).2}" (specEarliest st.spec))
-  | ["dbcount"] => (st, withSpec (toString st.reg.store.timerKeys.length) (toString st.spec.pending.length))
+    | none => (st, withSpec (kfLabel st) "none" (specEarliest st.spec))
+    | some k => (st, withSpec (kfLabel st) s!"t={(timerOf k).2}" (specEarliest st.spec))
+  | ["dbcount"] => (st, withSpec (kfLabel st) (toString st.reg.store.timerKeys.length) (toString st.spec.pending.length))
   | ["ckpt"] => ({ st with ckpt := some st.reg.store.db, specCkpt := some st.spec.pending }, "ok")
   | ["restore"] =>
     match st.ckpt with
@@ -95,7 +112,7 @@ def handle (lines : Array String) (i : Nat) (out : Array String) : Nat × Array 
   match hdr with
   | "M" :: _ :: "op" :: rest =>
     -- operator mode: the operator event loop `Timers.Op` (shared with C11's driver section)
-    runLines Driver.C11.stepOp (Driver.C11.initSt ("M" :: "C11" :: rest)) lines i out
+    runLines Driver.C11.stepOp { Driver.C11.initSt ("M" :: "C11" :: rest) with toldSpec := false } lines i out
   | _ => runLines step (initSt hdr) lines i out
 
 end Driver.C10
